@@ -3,7 +3,10 @@ package log
 import (
 	"context"
 	"runtime"
+	"time"
 )
+
+func timeNowMinusHours(h int) time.Time { return time.Now().Add(-time.Duration(h) * time.Hour) }
 
 func runtimeCaller(skip int) (uintptr, string, int, bool) { return runtime.Caller(skip + 1) }
 func t0ctx() context.Context                               { return context.Background() }
